@@ -304,7 +304,7 @@ def _record_site(it, S, sites, is_enum):
         return True
     if is_enum:
         dd = S.dom(("discr", v)) if not (isinstance(v, tuple) and v[0] == "agg") else None
-        if isinstance(v, tuple) and v[0] == "agg" and isinstance(v[1], str):
+        if isinstance(v, tuple) and v[0] == "agg" and isinstance(v[1], str) and it.ctx.variant_discr(v[1], v[2]) is not None:
             d = it.ctx.variant_discr(v[1], v[2])
             # Ok(Some(x)) / Ok(None): one post per inner variant as well, registered on the inner discriminant
             if len(v[3]) == 1:
@@ -403,7 +403,8 @@ def site_entry(ctx, caller_it, bi, t, callee_key, entry_svs):
         dx = ("discr", X)
         if isinstance(X, tuple) and X[0] == "agg" and isinstance(X[1], str) and X[2] is not None and X[1] in ENUM_ADTS:
             dv = ctx.variant_discr(X[1], X[2])
-            E.doms[dsv] = Dom(dv, dv)
+            if dv is not None:
+                E.doms[dsv] = Dom(dv, dv)
         elif dx in S.doms:
             E.doms[dsv] = S.dom(dx)
     ints = [C for C in trans if _is_intlike(C)]
